@@ -161,7 +161,10 @@ class World:
                b'update d:value [1, {}]', b'error_read d ["X", "y", {}]', b'reply d:value [1,{}]', b'changed d:_x [1,{}]', b'active', b'pong',
                b'logging d "nolevel"', b'logging d 5', b'logging nosuch "info"', b'logging', b'change d:_st {"zz": 1}', b'change d:_st []',
                b'change d:_s ' + b'"' + b'x' * 3000 + b'"', b'ping ' + b'y' * 1500, b'z' * 2100, b'read d:value' + b' ' * 1200,
-               b'describe x', b'describe d', b'*IDN? x', b'*idn?', b'change d:_x 3 4', b'change d:_x  3', b'do d:_twice  2']
+               b'describe x', b'describe d', b'*IDN? x', b'*idn?', b'change d:_x 3 4', b'change d:_x  3', b'do d:_twice  2',
+               # JSON nested deeper than any parser stack: a decoding failure like every other
+               b'change d:_x ' + b'[' * 6000, b'do d:_twice ' + b'[' * 3000 + b']' * 3000, b'ping tok ' + b'{"a":' * 4000,
+               b'logging d ' + b'[' * 2500 + b'1' + b']' * 2500, b'change d:_st ' + b'{"a":[' * 2000]
     EOLS = [b'\n', b'\n', b'\n', b'\r\n', b'\n\n', b'\r', b' \n']
 
     def gen_stream(self, rng):
@@ -274,7 +277,7 @@ class World:
             if len(toks) > 2 and toks[2] != '':
                 try:
                     json.loads(toks[2])
-                except ValueError:
+                except (ValueError, RecursionError):
                     decodable = False
         except UnicodeDecodeError:
             decodable = False
